@@ -1188,6 +1188,23 @@ def batch_case(ctx, g, rng, h, long=False):
         h.batch(gen_batch(rng, spec_content(h.log)))
 
 
+def batch_huge(ctx, g, rng, h):
+    """a file of several thousand rows built by a write and appends (beyond one HDF5 chunk / typical block sizes),
+    then batch reads whose slices and index arrays straddle those boundaries"""
+    schema = gen_schema(rng)
+    h.write(gen_table(rng, schema, int(rng.integers(2500, 6000))), False, False)
+    for _ in range(int(rng.integers(1, 3))):
+        if h.dead:
+            return
+        h.write(gen_table(rng, schema, int(rng.integers(1500, 4000))), False, True)
+    for _ in range(14):
+        if h.dead:
+            return
+        h.batch(gen_batch(rng, spec_content(h.log)))
+    if not h.dead:
+        h.verify()
+
+
 def fits_case(ctx, g, rng, h):
     schema = gen_schema(rng)
     for _ in range(int(rng.integers(2, 7))):
@@ -1219,17 +1236,17 @@ def batch_long(ctx, g, rng, h):
 
 
 KINDS = {"hist": (hist_case, "hdf5"), "histlong": (hist_long, "hdf5"), "batch": (batch_case, "hdf5"),
-         "batchlong": (batch_long, "hdf5"), "fits": (fits_case, "fits")}
+         "batchlong": (batch_long, "hdf5"), "fits": (fits_case, "fits"), "batchhuge": (batch_huge, "hdf5")}
 
 
 def plan(ctx):
     """quick: ~45 s; thorough: ~14 min.  A case is a function of (kind, index, seed) only, so a replay does
     not depend on the tier it was found in."""
     if ctx.thorough:
-        n = dict(hist=1500, histlong=700, batch=250, batchlong=150, fits=400)
+        n = dict(hist=1500, histlong=700, batch=250, batchlong=150, fits=400, batchhuge=25)
     else:
-        n = dict(hist=170, histlong=0, batch=30, batchlong=0, fits=30)
-    return [(k, i) for k in ("hist", "histlong", "batch", "batchlong", "fits") for i in range(n[k])]
+        n = dict(hist=170, histlong=0, batch=30, batchlong=0, fits=30, batchhuge=2)
+    return [(k, i) for k in ("hist", "histlong", "batch", "batchlong", "fits", "batchhuge") for i in range(n[k])]
 
 
 def run_case(ctx, g):
@@ -1301,5 +1318,6 @@ def post(ctx):
     for e in ("key", "index", "value", "units"):
         ctx.require(f"refused batch reads ({e})", c[f"batch:error:{e}"], 2 * t)
     ctx.require("FITS histories", c["case:fits"], 20 * t)
+    ctx.require("files of several thousand rows built by appends", c["case:batchhuge"], 2)
     ctx.require("HDF5 histories", c["case-format:hdf5"], 150 * t)
     ctx.require("FITS appends (not implemented)", c["refused:notimpl"], 3 * t)
